@@ -22,8 +22,8 @@ Proof. exact parse_print_roundtrip. Qed.
 Print Assumptions C09_parse_print_roundtrip.
 
 (* Encoding the denoted pieces gives the meaning: every formatter's value for
-   the record (??? for absent fields, MDC value or default, date in format and
-   zone, profile-dependent groups, highlight styling), fitted to its spec. *)
+   the record (??? for absent fields, MDC value or default - key and default being
+   the whole literal argument -, date in format and zone, profile-dependent groups, highlight styling), fitted to its spec. *)
 Theorem C09_pieces_encode_to_meaning :
   forall ok ts e seq,
     forallb (sem_ok ok) seq = true ->
@@ -79,15 +79,17 @@ Theorem C09_lookahead_refuted :
 Proof. exact lookahead_refuted. Qed.
 Print Assumptions C09_lookahead_refuted.
 
-(* Open finding F-C09-mdc-first-piece: `{X(a{{b)}` looks up key `a`. *)
-Theorem C09_mdc_first_piece_refuted :
+(* Fixed finding F-C09-mdc-first-piece (c13258d): an MDC key / default is the WHOLE literal
+   argument, escapes included - `{X(a{{b)}` is well-formed for the theorems above and renders
+   the value of key `a{b` (the map also holds a value for `a`). *)
+Theorem C09_mdc_whole_argument :
   wf_seq a_alpha a_alnum true false w_mdc = true /\
-  forallb (sem_ok_mod_class w_ok) w_mdc = true /\
-  existsb in_known_class w_mdc = true /\
+  forallb (sem_ok w_ok) w_mdc = true /\
   exists cs, construct a_alpha a_alnum w_ok (print_seq w_mdc) = Ok cs
-             /\ encode w_ok w_ts w_env cs <> meaning_seq w_ts w_env w_mdc.
-Proof. exact mdc_first_piece_refuted. Qed.
-Print Assumptions C09_mdc_first_piece_refuted.
+             /\ encode w_ok w_ts w_env cs = chars (LIT "right")
+             /\ meaning_seq w_ts w_env w_mdc = chars (LIT "right").
+Proof. exact mdc_whole_argument. Qed.
+Print Assumptions C09_mdc_whole_argument.
 
 (* ---------- non-vacuity ---------- *)
 
